@@ -34,3 +34,54 @@ pub fn hms(s: i64) -> String {
     let s = s.rem_euclid(86400);
     format!("{:02}:{:02}:{:02}", s / 3600, (s / 60) % 60, s % 60)
 }
+
+/// History independence ("the library is a pure function of its arguments"): before a case is evaluated, the library
+/// is called once, on the same thread, with a *sibling* input that differs from the case in exactly one argument
+/// (chosen by `selector`: GMT offset / longitude / latitude / elevation each either far away or by a tiny amount,
+/// date +40 d, date -1 d, method/school, substitute latitude/weather). The sibling's result is discarded. Any state a change to the library keeps between
+/// calls (a memo keyed on a subset of the inputs, a "last day" cache, a static) then shows up as a wrong value of the
+/// case itself, which the property's independent oracle catches.
+pub fn prime(site: &Site, spec: &ParamSpec, date: NaiveDate, weather: Option<WeatherSpec>, selector: u64) {
+    use crate::engine::F;
+    let mut s2 = *site;
+    let mut sp2 = spec.clone();
+    let mut d2 = date;
+    let mut w2 = weather;
+    match selector % 12 {
+        8 => s2.gmt = F(if site.gmt.0 <= 0.0 { site.gmt.0 + 0.004 } else { site.gmt.0 - 0.004 }),
+        9 => s2.lon = F(if site.lon.0 <= 0.0 { site.lon.0 + 0.03 } else { site.lon.0 - 0.03 }),
+        10 => s2.lat = F(if site.lat.0 <= 0.0 { site.lat.0 + 0.03 } else { site.lat.0 - 0.03 }),
+        11 => s2.elev = F(if site.elev.0 <= 0.0 { site.elev.0 + 1.0 } else { site.elev.0 - 1.0 }),
+        0 => s2.gmt = F(if site.gmt.0 <= 0.0 { (site.gmt.0 + 9.0).min(12.0) } else { (site.gmt.0 - 9.0).max(-12.0) }),
+        1 => {
+            let mut l = site.lon.0 + 97.0;
+            if l > 180.0 {
+                l -= 360.0;
+            }
+            s2.lon = F(l);
+        }
+        2 => s2.lat = F((-0.7 * site.lat.0 + 11.0).clamp(-90.0, 90.0)),
+        3 => d2 = crate::gen::clamp_date(date + chrono::Duration::days(40)),
+        4 => d2 = crate::gen::clamp_date(date - chrono::Duration::days(1)),
+        5 => s2.elev = F(if site.elev.0 > 1500.0 { 0.0 } else { 3000.0 }),
+        6 => {
+            sp2.method = (spec.method + 3) % 9;
+            sp2.school = Some(if spec.school_k() == 1.0 { 2 } else { 1 });
+        }
+        _ => {
+            sp2.policy_lat = F(-spec.policy_lat.0);
+            w2 = match weather {
+                None => Some(WeatherSpec { pressure: F(600.0), temperature: F(-30.0) }),
+                Some(_) => None,
+            };
+        }
+    }
+    let r = compute(&s2, &sp2, d2, w2);
+    std::hint::black_box(&r);
+}
+
+/// selector for `prime` derived from the case itself (so that the run stays a pure function of the generated case)
+pub fn prime_selector(site: &Site, date: NaiveDate) -> u64 {
+    use chrono::Datelike;
+    crate::engine::mix(&[site.lat.0.to_bits(), site.lon.0.to_bits(), date.num_days_from_ce() as u64])
+}
